@@ -136,6 +136,8 @@ type ZOuter struct {
 	MA     map[string]interface{}
 	MP     map[string]*ZInner
 	MK     map[interface{}]string
+	M8     map[uint8]string  // keys that a number may not fit
+	PM     *map[string]int   // a map behind a pointer
 	ME     map[string]string // has the empty string as a key
 	Iface  interface{}
 	SF     ZShadowFirst
@@ -183,6 +185,8 @@ func zooRoot(variant int) interface{} {
 		M:   map[string]int{"one": 1, "zero": 0}, MI: map[int]string{1: "i-one", 2: ""}, MN: map[ZKey]string{"nk": "named-key-value"},
 		MA:    map[string]interface{}{"s": "str", "n": nil, "in": &ZInner{Val: 1, Name: "ma-in"}, "m": map[string]int{"deep": 99}},
 		MP:    map[string]*ZInner{"p": {Val: 2, Name: "mp-p"}, "nilp": nil},
+		M8:    map[uint8]string{44: "under-44", 0: "under-0"},
+		PM:    &map[string]int{"pk": 5},
 		MK:    map[interface{}]string{"ik": "interface-key", ZKey("ik"): "entry-under-a-key-of-a-defined-string-type", 7: "entry-under-an-int-key"},
 		ME:    map[string]string{"": "value-under-empty-key", "k": "v"},
 		Iface: ZInner{Val: 5, Name: "iface-inner"},
@@ -252,7 +256,7 @@ type zStep struct {
 }
 
 // variables that C06 / C17 templates can use as keys of the interface-keyed map
-var zIfaceKeys = map[string]interface{}{"keyNamed": ZKey("ik"), "keyPlain": "ik", "keyInt": 7, "keyAbsent": ZKey("nope")}
+var zIfaceKeys = map[string]interface{}{"keyNamed": ZKey("ik"), "keyPlain": "ik", "keyInt": 7, "keyAbsent": ZKey("nope"), "keySlice": []int{1}}
 
 type zStatus int
 
@@ -354,7 +358,11 @@ func zResolve(root interface{}, steps []zStep) (val reflect.Value, st zStatus, w
 			if d.Kind() != reflect.Map {
 				return v, zErr, "int key on non-map"
 			}
-			e := d.MapIndex(reflect.ValueOf(s.I).Convert(d.Type().Key()))
+			k := reflect.ValueOf(s.I).Convert(d.Type().Key())
+			e := d.MapIndex(k)
+			if k.Convert(reflect.TypeOf(0)).Int() != int64(s.I) {
+				e = reflect.Value{} // the number does not fit the key type: no such key
+			}
 			if !e.IsValid() {
 				if !last {
 					return reflect.Value{}, zErr, "step on the nil an absent key yields"
@@ -366,6 +374,9 @@ func zResolve(root interface{}, steps []zStep) (val reflect.Value, st zStatus, w
 			d, isNil := zDeref(v)
 			if d.Kind() != reflect.Map || (isNil && d.Kind() != reflect.Map) {
 				return v, zErr, "key on non-map"
+			}
+			if !reflect.TypeOf(zIfaceKeys[s.Var]).Comparable() {
+				return v, zErr, "key that cannot be hashed"
 			}
 			e := d.MapIndex(reflect.ValueOf(zIfaceKeys[s.Var]))
 			if !e.IsValid() {
@@ -430,7 +441,7 @@ func zOptions(v reflect.Value) (valid, invalid []zStep) {
 		return nil, []zStep{{Kind: "field", Name: "Anything"}, {Kind: "index", I: 0}}
 	}
 	if isNil && d.Kind() != reflect.Map {
-		return nil, []zStep{{Kind: "field", Name: "Name"}, {Kind: "index", I: 0}, {Kind: "field", Name: "Val"}}
+		return nil, []zStep{{Kind: "field", Name: "Name"}, {Kind: "index", I: 0}, {Kind: "field", Name: "Val"}, {Kind: "method", Name: "Hello"}}
 	}
 	switch d.Kind() {
 	case reflect.Struct:
@@ -499,7 +510,7 @@ func zOptions(v reflect.Value) (valid, invalid []zStep) {
 				}
 				valid = append(valid, st)
 			}
-			valid = append(valid, zStep{Kind: "field", Name: "absentKey", Spell: "bracket"})
+			valid = append(valid, zStep{Kind: "field", Name: "absentKey", Spell: "bracket"}, zStep{Kind: "field", Name: "absentKey", Spell: "dot"})
 			if !hasEmpty {
 				valid = append(valid, zStep{Kind: "field", Name: "", Spell: "bracket"}) // absent empty key
 			}
@@ -509,11 +520,15 @@ func zOptions(v reflect.Value) (valid, invalid []zStep) {
 			for _, name := range []string{"keyNamed", "keyPlain", "keyInt", "keyAbsent"} {
 				valid = append(valid, zStep{Kind: "ikey", Var: name})
 			}
+			invalid = append(invalid, zStep{Kind: "ikey", Var: "keySlice"}) // a key that cannot be hashed
 		} else {
 			for _, k := range keys {
-				valid = append(valid, zStep{Kind: "key", I: int(k.Int())})
+				valid = append(valid, zStep{Kind: "key", I: int(k.Convert(reflect.TypeOf(0)).Int())})
 			}
 			valid = append(valid, zStep{Kind: "key", I: 77})
+			if k := d.Type().Key().Kind(); k == reflect.Uint8 || k == reflect.Int8 {
+				valid = append(valid, zStep{Kind: "key", I: 300}, zStep{Kind: "key", I: 256}) // 300 is not 44, 256 is not 0
+			}
 		}
 	case reflect.Slice, reflect.Array, reflect.String:
 		n := d.Len()
